@@ -334,7 +334,9 @@ def relabel_string_literal_findings(case, queries: str, violations: List[Violati
                 ("strlit.single_quote" in dirty and has_single) or ("strlit.block" in dirty and has_block)):
             v.mech = "string-literal-quote-or-block-breaks-generation"
         if v.prop == "C02" and "strlit.escape_n" in dirty and has_escape and v.clause in ("arguments", "sent-parses", "sent-valid", "variable-definitions"):
-            v.mech = "string-literal-newline-escape-altered"
+            # for a difference in argument / default values the authored side must really hold a line break or tab (what the escape denotes)
+            if v.clause in ("sent-parses", "sent-valid") or "\\n" in v.detail or "\\t" in v.detail:
+                v.mech = "string-literal-newline-escape-altered"
 
 
 def worker(case: Dict[str, Any]) -> CaseResult:
